@@ -527,7 +527,7 @@ impl Archive {
                 } else {
                     // If block table comes before hash table, calculate differently
                     let file_size = self.reader.get_ref().metadata()?.len();
-                    (file_size - hash_table_offset) as usize
+                    file_size.saturating_sub(hash_table_offset) as usize
                 };
 
                 if available_space < uncompressed_size {
@@ -1609,6 +1609,10 @@ impl Archive {
             });
         }
 
+        // The stored bytes must lie inside the archive file: the sizes come from the
+        // block table and are used to size buffers
+        self.check_stored_range(&file_info)?;
+
         // For v3+ archives with HET/BET tables, we already have all the info we need in FileInfo
         // For classic archives, we need to get additional info from the block table
         let (file_size_for_key, actual_file_size) =
@@ -2184,6 +2188,17 @@ impl Archive {
         }
     }
 
+    /// Reject a block entry whose stored data does not fit into the archive file
+    fn check_stored_range(&mut self, file_info: &FileInfo) -> Result<()> {
+        let file_len = self.reader.get_ref().metadata()?.len();
+        match file_info.file_pos.checked_add(file_info.compressed_size) {
+            Some(end) if end <= file_len => Ok(()),
+            _ => Err(Error::invalid_format(
+                "File data extends beyond the end of the archive",
+            )),
+        }
+    }
+
     /// Read a file that is split into sectors
     fn read_sectored_file(&mut self, file_info: &FileInfo, key: u32) -> Result<Vec<u8>> {
         let sector_size = self.header.sector_size();
@@ -2316,8 +2331,12 @@ impl Archive {
         };
         let no_recovery = file_info.has_sector_crc() && !validate_crcs;
 
+        let archive_file_len = self.reader.get_ref().metadata()?.len();
+
         // Read and decompress each sector
-        let mut decompressed_data = Vec::with_capacity(file_info.file_size as usize);
+        // The declared size is a hint only; it does not size the buffer beyond 64 MiB
+        let mut decompressed_data =
+            Vec::with_capacity((file_info.file_size as usize).min(64 * 1024 * 1024));
 
         // Pre-allocate a reusable buffer for sector reading
         // Add some overhead for compression headers
@@ -2348,6 +2367,13 @@ impl Archive {
             }
 
             let sector_size_compressed = (sector_end - sector_start) as usize;
+
+            // A sector cannot be larger than the archive file
+            if sector_size_compressed as u64 > archive_file_len {
+                return Err(Error::invalid_format(
+                    "Sector extends beyond the end of the archive",
+                ));
+            }
 
             // Calculate expected decompressed size for this sector
             let remaining = file_info.file_size as usize - decompressed_data.len();
